@@ -8,7 +8,6 @@ WHY = {
  'C17-2': 'which capture group the number parser highlights: regex layer, not under contract',
  'C17-3': 'dynamic_type_tokinizer calls update_tokens with a different end: update_tokens and its callers are listed as not covered',
  'C02-2': 'recursive-descent parser (src/syntax): out of reach of both verifiers (DESIGN.md §10)',
- 'C02-3': 'missing_token_adder is covered only by the thorough-tier bounded unit token_adder (quick tier does not run it)',
  'C03-1': 'AssignmentParser name construction: not under contract (C03 covers find_location only)',
  'C03-2': 'token equality (impl PartialEq<TokenType> for TokenInfo): find_location is checked generically at u8, the equality itself is not under contract',
  'C03-3': 'update_token_variables: not under contract (RefCell<BTreeMap>, Vec::drain, TokenType drop glue)',
